@@ -58,3 +58,42 @@ Section P.
       destruct k1; exact E.
   Qed.
 End P.
+
+(* ---- the decoder and the shipped verifier together: a token reported verified by JwsValidationItem::verify with the EdDSA verifier (the
+   ECDSA verifier) carries a signature segment that decodes to EXACTLY 64 bytes which the primitive accepts over EXACTLY the received
+   signing input, under the key's own coordinates ---- *)
+From Coq Require Import ZArith.
+From IdV Require Import Lib.Outcome Jose.Header Jose.Jws Proofs.JwsProofs.
+Definition valg_of (a : Z) : valg := if Z.eqb a 1 then AEdDSA else if Z.eqb a 2 then AES256 else if Z.eqb a 3 then AES256K else AOther.
+Section Composed.
+  Variable H : Type.
+  Variable halg : H -> option Z.
+  Variable ed_point_ok : list N -> bool.
+  Variable ed_verify : list N -> list N -> list N -> bool.
+  Variable ec_point_ok : bool -> list N -> bool.
+  Variable ec_sig_ok : bool -> list N -> bool.
+  Variable ec_verify : bool -> list N -> list N -> list N -> bool.
+  Definition V_eddsa (k : vkey) (a : Z) (si sg : list N) : bool :=
+    match eddsa_jws_verify ed_point_ok ed_verify (valg_of a) k sg si with None => true | Some _ => false end.
+  Definition V_ecdsa (k : vkey) (a : Z) (si sg : list N) : bool :=
+    match ecdsa_jws_verify ec_point_ok ec_sig_ok ec_verify (valg_of a) k sg si with None => true | Some _ => false end.
+  Theorem verified_by_eddsa it kalg d k : verify H halg (V_eddsa k) it kalg = Ok d ->
+    d = it /\ vk_family k = KOkp /\ vk_crv k = ED25519
+    /\ exists pk, b64u_decode (vk_x k) = Some pk /\ length pk = 32%nat /\ ed_point_ok pk = true
+       /\ length (it_sig H it) = 64%nat /\ ed_verify pk (it_sig H it) (it_si H it) = true.
+  Proof.
+    intros E. destruct (verify_sound H halg (V_eddsa k) it kalg d E) as [-> [h [a [_ [_ [_ Hv]]]]]]. split; [reflexivity|].
+    unfold V_eddsa in Hv. destruct (eddsa_jws_verify ed_point_ok ed_verify (valg_of a) k (it_sig H it) (it_si H it)) eqn:R; [discriminate|].
+    apply eddsa_ok_iff in R. destruct R as [_ [F [C [pk [D [L [P [S V]]]]]]]]. split; [exact F|]. split; [exact C|]. exists pk. repeat split; assumption.
+  Qed.
+  Theorem verified_by_ecdsa it kalg d k : verify H halg (V_ecdsa k) it kalg = Ok d ->
+    d = it /\ vk_family k = KEc
+    /\ exists (k1 : bool) x y, b64u_decode (vk_x k) = Some x /\ b64u_decode (vk_y k) = Some y /\ length x = 32%nat /\ length y = 32%nat
+       /\ ec_point_ok k1 (x ++ y) = true /\ length (it_sig H it) = 64%nat /\ ec_sig_ok k1 (it_sig H it) = true
+       /\ ec_verify k1 (x ++ y) (it_sig H it) (it_si H it) = true.
+  Proof.
+    intros E. destruct (verify_sound H halg (V_ecdsa k) it kalg d E) as [-> [h [a [_ [_ [_ Hv]]]]]]. split; [reflexivity|].
+    unfold V_ecdsa in Hv. destruct (ecdsa_jws_verify ec_point_ok ec_sig_ok ec_verify (valg_of a) k (it_sig H it) (it_si H it)) eqn:R; [discriminate|].
+    apply ecdsa_ok_iff in R. destruct R as [k1 [_ [F [x [y [Dx [Dy [Lx [Ly [P [S [Q V]]]]]]]]]]]]. split; [exact F|]. exists k1, x, y. repeat split; assumption.
+  Qed.
+End Composed.
